@@ -37,6 +37,18 @@ MOD = "FrontEnd"
 SPEC = "MC_FrontEnd.tla"
 STATEMENT_ONLY = os.environ.get("X06FE_STATEMENT_ONLY", "") not in ("", "0")
 QR_STRICT = os.environ.get("X06FE_QR_STRICT", "") not in ("", "0")
+# set by a property check that runs this tier for ITS statement: only verdict classes with these prefixes are
+# violations there (("c06/",) under C06, ("c10/",) under C10); the others are logged as drift and left to the
+# property they belong to.  None = standalone (every class counts).
+ONLY = None
+OBS_CLASS = {"ObsAtMostOneReply": "c10/", "ObsReplyIsOwn": "c10/", "ObsIdRule": "c06/", "ObsNegotiated": "c06/",
+             "ObsGarbageNeverAnswered": "fe/"}
+
+
+def counts(key):
+    if STATEMENT_ONLY and key.startswith("fe/"):
+        return False
+    return ONLY is None or any(key.startswith(p) for p in ONLY)
 
 INV = ["TypeOK", "AtMostOneReply", "OneHttpResponse", "ReplyIsOwn", "ExactlyOneWhenServed", "SilentStaysSilent",
        "PanicAheadIsReset", "GarbageNeverAnswered", "DocumentedRejection", "IdRule", "EchoRule", "NegotiatedOnly",
@@ -237,9 +249,9 @@ def fold(ctx, res, prefix):
     """take_driver_result with the verdict classes applied."""
     keep = []
     for v in res.get("violations", []):
-        if STATEMENT_ONLY and v.get("key", "").startswith("fe/"):
+        if not counts(v.get("key", "")):
             ctx.cov["drift"] += 1
-            ctx.log("DRIFT (fe class, X06FE_STATEMENT_ONLY): %s" % v.get("what"))
+            ctx.log("DRIFT (class %s is not this check's to judge): %s" % (v.get("key", "").split("/")[0], v.get("what")))
         else:
             keep.append(v)
     res["violations"] = keep
@@ -356,7 +368,7 @@ def observations(ctx, cnt):
     what = ("a DNS message with QR=1 (a response) sent as a DoH body / on a DoQ stream is answered like a query (%s): "
             "Server.ServeMsg has no header gate; the datagram and stream engines drop such packets in acceptHeader. "
             "Model: MC_QrFinding (QrGate = FALSE, as the code) violates ResponsesNeverAnswered, MC_QrGated holds." % qr)
-    if QR_STRICT:
+    if QR_STRICT and counts("fe/qr-answered"):
         ctx.violation("fe/qr-answered", what, {"driver": "replay", "exchange": {"form": "post|frame", "mal": "qr"}, "counts": qr})
     else:
         ctx.log("OBSERVATION: " + what + " Not ruled on by the C06 statement for these transports; reported, not a violation.")
@@ -456,6 +468,9 @@ def stress_verdict(ctx, out):
     v = out["verdict"]
     if v == "accepted":
         ctx.cov["traces_validated_against_impl"] += info.get("rounds", 0)
+    elif v and v.startswith("invariant:") and not counts(OBS_CLASS.get(v[10:], "fe/")):
+        ctx.cov["drift"] += 1
+        ctx.log("DRIFT (not this check's to judge): invariant %s is false on a recorded concurrent history" % v[10:])
     elif v and v.startswith("invariant:"):
         ctx.violation("stress/trace/" + v[10:],
                       "[concurrent stress] invariant %s is false on a recorded concurrent history of the real front ends" % v[10:],
@@ -469,7 +484,7 @@ def stress_verdict(ctx, out):
 def run_tier(ctx):
     thorough = ctx.tier == "thorough"
     rng = random.Random(ctx.seed * 7919 + 11)
-    ctx.cov["rule"] = ("X06FE: behaviours = TLC schedules of FrontEnd.tla (edge cover of gated graphs + simulation over eleven "
+    ctx.cov["rule"] = (ctx.cov["rule"] + " | " if ctx.cov.get("rule") else "") + ("X06FE: behaviours = TLC schedules of FrontEnd.tla (edge cover of gated graphs + simulation over eleven "
                        "request menus) replayed on the real DoH / DoH3 / DoQ listeners; distinct = (transport, form, malformed "
                        "kind, answer kind, EDNS class, outcome) classes of judged exchanges")
     ctx.assumptions += [
